@@ -3,7 +3,7 @@ import KyberModel.Core.Sha256
 /-
 C17 — `Embed`, `Data`, `Pick` as functions of the bytes drawn from the stream.
 
-All implementations share one loop: draw a candidate block from the stream, overwrite part of it with the
+All implementations share one loop: draw a candidate block from the stream, replace part of it by the
 length byte and the data (if data is given), try to turn the block into a group element, test what
 the group requires, otherwise retry with the next block. `embedLoop` is that loop over a finite prefix
 of the (infinite) stream; it returns the element and the number of bytes consumed, or `none` when the
@@ -30,20 +30,18 @@ def embedLoop {α : Type} (n : Nat) (try_ : Bytes → Option α) : Nat → Bytes
     | some v => some (v, used + n)
     | none => embedLoop n try_ fuel (s.drop n) (used + n)
 
-/-- Overwrite `blk` from position `at` with `patch` (positions beyond the block are dropped). -/
-def overwrite (blk : Bytes) (pos : Nat) (patch : Bytes) : Bytes :=
-  blk.take pos ++ (patch.take (blk.length - pos)) ++ blk.drop (pos + patch.length)
-
 namespace Ed25519
 open Edwards
 
 def embedLen : Nat := 29
 
-/-- The candidate after placing length byte and data at the front (little-endian `y`). -/
+/-- The candidate after placing length byte and data at the front (little-endian `y`):
+    `b[0] = dl`, `b[1..1+dl] = data[..dl]`, the rest of the block as drawn. -/
 def embedCand (data : Option Bytes) (blk : Bytes) : Bytes :=
   match data with
   | none => blk
-  | some d => overwrite blk 0 (UInt8.ofNat (min embedLen d.length) :: d.take embedLen)
+  | some d =>
+    UInt8.ofNat (min embedLen d.length) :: (d.take (min embedLen d.length) ++ blk.drop (1 + min embedLen d.length))
 
 /-- One candidate: decode; without data clear the cofactor (reject the identity), with data test the order. -/
 def embedTry (data : Option Bytes) (blk : Bytes) : Option Pt :=
@@ -80,19 +78,29 @@ def embedCand (data : Option Bytes) (xb : Bytes) : Bytes :=
   match data with
   | none => xb
   | some d =>
-    let dl := min embedLen d.length
-    overwrite xb (32 - dl - 1) (d.take dl ++ [UInt8.ofNat dl])
+    xb.take (31 - min embedLen d.length) ++ (d.take (min embedLen d.length) ++ [UInt8.ofNat (min embedLen d.length)])
+
+/-- The sign decision: top bit of the byte drawn after the 32 bytes of `x`. -/
+def signOf (blk : Bytes) : Bool :=
+  match blk.drop 32 with
+  | s :: _ => decide (128 ≤ s.toNat)
+  | [] => false
+
+/-- `x³ - 3x + b mod p`. -/
+def rhs (x : Nat) : Nat := (x * x * x + (p - 3 * x % p) + b) % p
+
+/-- The candidate `y`: the square-root candidate, negated (`p - y`) when the sign byte says so. -/
+def candY (sgn : Bool) (y2 : Nat) : Nat := if sgn then p - sqrtCand y2 else sqrtCand y2
 
 /-- `genPoint`: `x` as drawn, `y² = x³ - 3x + b` reduced, the sign byte flips `y`; a candidate
     `x ≥ p` is not a field element and is refused (on the unchanged tree the code lacks this test:
     C17 finding, fixes/C17-p256-embed-x-range.patch). -/
 def embedTry (data : Option Bytes) (blk : Bytes) : Option (Nat × Nat) :=
-  let x := decodeBE (embedCand data (blk.take 32))
-  let sgn := match blk.drop 32 with | s :: _ => decide (128 ≤ s.toNat) | [] => false
-  let y2 := (x * x * x + (p - 3 * x % p) + b) % p
-  let y0 := sqrtCand y2
-  let y := if sgn then p - y0 else y0
-  if y * y % p = y2 ∧ x < p then some (x, y) else none
+  if candY (signOf blk) (rhs (decodeBE (embedCand data (blk.take 32)))) *
+        candY (signOf blk) (rhs (decodeBE (embedCand data (blk.take 32)))) % p
+      = rhs (decodeBE (embedCand data (blk.take 32))) ∧ decodeBE (embedCand data (blk.take 32)) < p
+  then some (decodeBE (embedCand data (blk.take 32)), candY (signOf blk) (rhs (decodeBE (embedCand data (blk.take 32)))))
+  else none
 
 def embed (data : Option Bytes) (stream : Bytes) : Option ((Nat × Nat) × Nat) :=
   embedLoop 33 (embedTry data) stream.length stream 0
@@ -115,9 +123,9 @@ def embedCand (P : Nat) (data : Option Bytes) (blk : Bytes) : Bytes :=
   match data with
   | none => blk
   | some d =>
-    let dl := min (embedLen P) d.length
-    let l := encLen P
-    overwrite blk (l - dl - 2) (d.take dl ++ [UInt8.ofNat (dl / 256), UInt8.ofNat (dl % 256)])
+    blk.take (encLen P - min (embedLen P) d.length - 2) ++
+      (d.take (min (embedLen P) d.length) ++
+        [UInt8.ofNat (min (embedLen P) d.length / 256), UInt8.ofNat (min (embedLen P) d.length % 256)])
 
 /-- `random.Bits(bitLen P, false)` masks the top byte when the bit length is not a multiple of 8. -/
 def embedTry (P Q : Nat) (data : Option Bytes) (blk : Bytes) : Option Nat :=
@@ -143,14 +151,18 @@ def embedLen : Nat := 29
 def embedCand (data : Option Bytes) (blk : Bytes) : Bytes :=
   match data with
   | none => blk
-  | some d => overwrite blk 0 (UInt8.ofNat (min embedLen d.length) :: d.take embedLen)
+  | some d =>
+    UInt8.ofNat (min embedLen d.length) :: (d.take (min embedLen d.length) ++ blk.drop (1 + min embedLen d.length))
 
 /-- `deriveY` (`big.Int.ModSqrt`, `p ≡ 3 mod 4`) followed by `IsOnCurve`; coordinates reduced. -/
+def rhs (x : Nat) : Nat := (x * x % p * x + 3) % p
+def sqrtCand (t : Nat) : Nat := powMod t ((p + 1) / 4) p
+
 def embedTry (data : Option Bytes) (blk : Bytes) : Option (Nat × Nat) :=
-  let x := decodeBE (embedCand data blk) % p
-  let t := (x * x % p * x + 3) % p
-  let y := powMod t ((p + 1) / 4) p
-  if y * y % p = t then some (x, y) else none
+  if sqrtCand (rhs (decodeBE (embedCand data blk) % p)) * sqrtCand (rhs (decodeBE (embedCand data blk) % p)) % p
+      = rhs (decodeBE (embedCand data blk) % p)
+  then some (decodeBE (embedCand data blk) % p, sqrtCand (rhs (decodeBE (embedCand data blk) % p)))
+  else none
 
 def embed (data : Option Bytes) (stream : Bytes) : Option ((Nat × Nat) × Nat) :=
   embedLoop 32 (embedTry data) stream.length stream 0
@@ -174,9 +186,7 @@ def pick (stream : Bytes) : Option (Pt × Nat) :=
 def hashLoop : Nat → Nat → Option (Nat × Nat)
   | 0, _ => none
   | fuel + 1, x =>
-    let t := (x * x % p * x + 3) % p
-    let y := powMod t ((p + 1) / 4) p
-    if y * y % p = t then some (x, y) else hashLoop fuel (x + 1)
+    if sqrtCand (rhs x) * sqrtCand (rhs x) % p = rhs x then some (x, sqrtCand (rhs x)) else hashLoop fuel (x + 1)
 
 def hash (msg : Bytes) : Option Pt :=
   match hashLoop 512 (decodeBE (Sha256.hash msg) % p) with
